@@ -15,7 +15,7 @@ package main
 //   missing <job> <hex path>          a path found in the arguments does not exist at start
 //   corrupt <job> <hex path>          ... exists but its content is not what its writer wrote
 //   saw     <job> <hex path>          ... exists and is intact
-//   wrote   <job> <kind> <size> <hex path>   one line per entry under files/ and tmp/ after writing
+//   wrote   <job> <kind> <size> <hex path> [<size of link target>]  one line per entry under files/ and tmp/ after writing
 //   jobdirs <job> <hex files dir> <hex tmp dir>
 
 import (
@@ -144,7 +144,15 @@ func c04LogTree(id, kindroot, root string) {
 		} else if info.Mode()&os.ModeSymlink != 0 {
 			k = "l"
 		}
-		lines = append(lines, "wrote "+id+" "+kindroot+k+" "+strconv.FormatInt(info.Size(), 10)+" "+hx.H(p))
+		line := "wrote " + id + " " + kindroot + k + " " + strconv.FormatInt(info.Size(), 10) + " " + hx.H(p)
+		if k == "l" {
+			// the runtime's directory walk opens each entry, so for a link it
+			// accounts the size of what the link points to
+			if st, err := os.Stat(p); err == nil {
+				line += " " + strconv.FormatInt(st.Size(), 10)
+			}
+		}
+		lines = append(lines, line)
 		return nil
 	})
 	sort.Strings(lines)
